@@ -2964,6 +2964,15 @@ where
         K::Scalar: CoordinateScalar,
     {
         let mut stats = InsertionStatistics::default();
+        // Non-finite coordinates must never enter the triangulation (the bootstrap phase stores
+        // vertices without evaluating any predicate, so nothing else would reject them).
+        if let Err(source) = vertex.point().validate() {
+            return Err(InsertionError::Construction(
+                TriangulationConstructionError::FailedToAddVertex {
+                    message: format!("vertex has invalid coordinates: {source}"),
+                },
+            ));
+        }
         let original_coords = *vertex.point().coords();
         let original_uuid = vertex.uuid();
         let mut current_vertex = vertex;
